@@ -233,6 +233,7 @@ namespace cds { namespace intrusive {
                 array_node * pNode = m_pNode;
                 size_t idx = m_idx + 1;
                 size_t nodeSize = m_pNode->pParent? arrayNodeSize : headSize;
+                back_off bkoff;
 
                 for ( ;; ) {
                     if ( idx < nodeSize ) {
@@ -245,8 +246,9 @@ namespace cds { namespace intrusive {
                             nodeSize = arrayNodeSize;
                         }
                         else if ( slot.bits() == base_class::flag_array_converting ) {
-                            // the slot is converting to array node right now - skip the node
-                            ++idx;
+                            // the slot is converting to array node right now:
+                            // wait until the conversion is done otherwise the items of the new array node would be missed
+                            bkoff();
                         }
                         else {
                             if ( slot.ptr()) {
@@ -256,6 +258,8 @@ namespace cds { namespace intrusive {
                                     m_idx = idx;
                                     return;
                                 }
+                                // the slot has been changed (it can be converting to an array node): examine it again
+                                continue;
                             }
                             ++idx;
                         }
@@ -291,6 +295,7 @@ namespace cds { namespace intrusive {
                 array_node * pNode = m_pNode;
                 size_t idx = m_idx - 1;
                 size_t nodeSize = m_pNode->pParent? arrayNodeSize : headSize;
+                back_off bkoff;
 
                 for ( ;; ) {
                     if ( idx != endIdx ) {
@@ -303,8 +308,9 @@ namespace cds { namespace intrusive {
                             idx = nodeSize - 1;
                         }
                         else if ( slot.bits() == base_class::flag_array_converting ) {
-                            // the slot is converting to array node right now - skip the node
-                            --idx;
+                            // the slot is converting to array node right now:
+                            // wait until the conversion is done otherwise the items of the new array node would be missed
+                            bkoff();
                         }
                         else {
                             if ( slot.ptr()) {
@@ -314,6 +320,8 @@ namespace cds { namespace intrusive {
                                     m_idx = idx;
                                     return;
                                 }
+                                // the slot has been changed (it can be converting to an array node): examine it again
+                                continue;
                             }
                             --idx;
                         }
